@@ -204,7 +204,7 @@ def run(ctx):
                 'the compiled run is compared with the extracted model (Compile.compile + exec); cache sizes 0,1,2,5 with '
                 'shuffled message orders against fresh interpreted decodes; save/load through JSON.')
     rng = ctx.rng
-    n = ctx.n(200, 5000)
+    n = ctx.n(200, 2500)
     cases = P.build_cases(ctx, n, gen_kwargs=dict(size=6), nsub_choices=(1, 1, 2, 3), compressed=(False, False, True),
                           versions=(33, 33, 25), editions=(4,))
     # Table D sequences as programs
@@ -333,5 +333,9 @@ def replay(ctx, rec):
               'compressed': c.get('compressed', False), 'forced': c['forced'], 'seed': c['seed'], 'maxrep': 3,
               'features': {}, 'shared': c.get('compressed', False)}]
     P.attach_templates(cases); P.run_gen(cases); P.run_encode(cases); P.run_decode(cases)
+    cases[0]['scoped'] = lib.run_model(['scoped ' + cases[0]['toks']])[0] == 'true'
+    cases[0]['okc08'] = lib.run_model(['okc08 ' + cases[0]['toks']])[0] == 'true'
+    if rec.get('witness'):
+        cases[0]['witness'] = rec['witness']
     check_case(ctx, cases[0], c.get('cache_max', 2))
-    return {'violations': len(ctx.violations)}
+    return {'violations': len(ctx.violations), 'scoped': cases[0]['scoped'], 'ok_c08': cases[0]['okc08']}
